@@ -575,11 +575,19 @@ def anchored(ctx, col):
             if isinstance(st, ast.Assign) and len(st.targets) == 1:
                 t, v = st.targets[0], st.value
                 base = t.value if isinstance(t, ast.Subscript) else t
-                if isinstance(base, ast.Name) and isinstance(v, ast.Subscript) and isinstance(v.value, ast.Name) and v.value.id == base.id \
-                        and isinstance(v.slice, ast.Name) and v.slice.id == base.id:
+                # `t = t[t]`, or through a temporary: `nxt = t[t]; t = nxt`
+                if isinstance(base, ast.Name) and isinstance(v, ast.Subscript) and isinstance(v.value, ast.Name) and isinstance(v.slice, ast.Name) and v.slice.id == v.value.id \
+                        and (v.value.id == base.id or any(isinstance(a2, ast.Assign) and len(a2.targets) == 1 and isinstance(a2.targets[0], ast.Name) and a2.targets[0].id == v.value.id
+                                                        and isinstance(a2.value, ast.Name) and a2.value.id == base.id for a2 in own_nodes(dd))):
                     guarded = any(isinstance(c, ast.Compare) and "arange" in norm_src(c) for c in ast.walk(dd.node)) or any(
                         isinstance(c, ast.Compare) and "arange" in norm_src(c) for o in repo.all_defs() if o.module is gd.module and not o.is_lambda for c in ast.walk(o.node)
                         if o is not dd and any(isinstance(k, ast.Call) and (dotted(k.func) or "").rsplit(".", 1)[-1] == dd.name for k in ast.walk(o.node)))
+                    # ... or under a predicate function of the module that makes that test (`if _is_row_ordered(dsu): return _resolve_row_ordered(dsu)`)
+                    preds_ = {o.name for o in repo.all_defs() if o.module is gd.module and not o.is_lambda and any(isinstance(c, ast.Compare) and "arange" in norm_src(c) for c in ast.walk(o.node))}
+                    callers_ = [dd] + [o for o in repo.all_defs() if o.module is gd.module and not o.is_lambda and o is not dd
+                                       and any(isinstance(k, ast.Call) and (dotted(k.func) or "").rsplit(".", 1)[-1] == dd.name for k in ast.walk(o.node))]
+                    guarded = guarded or any(isinstance(i_, (ast.If, ast.IfExp, ast.While)) and any(isinstance(k, ast.Call) and (dotted(k.func) or "").rsplit(".", 1)[-1] in preds_ for k in ast.walk(i_.test))
+                                             for o in callers_ for i_ in ast.walk(o.node))
                     uses_dsu = dd is gd or any(isinstance(k, ast.Call) and (dotted(k.func) or "").rsplit(".", 1)[-1] == dd.name for k in ast.walk(gd.node))
                     if not uses_dsu:
                         continue
